@@ -180,6 +180,9 @@ func (root *Root) resolve(
 		if co, _ := tt.(OutCoercer); co != nil {
 			var err error
 			if result, err = co.CoerceOut(obj); err != nil {
+				// Never let a value that could not be coerced into the
+				// declared type leak into the output.
+				result = nil
 				ea = append(ea, resWarn(field.line, field.col, "%s", err))
 			}
 		}
@@ -304,47 +307,19 @@ func (root *Root) resolveList(
 		}
 		result = rlist
 	case []string:
-		rlist := make([]interface{}, 0, len(list))
-		for _, s := range list {
-			rlist = append(rlist, s)
-		}
-		result = rlist
+		result, ea = root.resolveTypedList(len(list), func(i int) interface{} { return list[i] }, vars, field, lt, depth)
 	case []int:
-		rlist := make([]interface{}, 0, len(list))
-		for _, i := range list {
-			rlist = append(rlist, i)
-		}
-		result = rlist
+		result, ea = root.resolveTypedList(len(list), func(i int) interface{} { return list[i] }, vars, field, lt, depth)
 	case []int64:
-		rlist := make([]interface{}, 0, len(list))
-		for _, i := range list {
-			rlist = append(rlist, i)
-		}
-		result = rlist
+		result, ea = root.resolveTypedList(len(list), func(i int) interface{} { return list[i] }, vars, field, lt, depth)
 	case []bool:
-		rlist := make([]interface{}, 0, len(list))
-		for _, b := range list {
-			rlist = append(rlist, b)
-		}
-		result = rlist
+		result, ea = root.resolveTypedList(len(list), func(i int) interface{} { return list[i] }, vars, field, lt, depth)
 	case []float32:
-		rlist := make([]interface{}, 0, len(list))
-		for _, f := range list {
-			rlist = append(rlist, f)
-		}
-		result = rlist
+		result, ea = root.resolveTypedList(len(list), func(i int) interface{} { return list[i] }, vars, field, lt, depth)
 	case []float64:
-		rlist := make([]interface{}, 0, len(list))
-		for _, f := range list {
-			rlist = append(rlist, f)
-		}
-		result = rlist
+		result, ea = root.resolveTypedList(len(list), func(i int) interface{} { return list[i] }, vars, field, lt, depth)
 	case []time.Time:
-		rlist := make([]interface{}, 0, len(list))
-		for _, f := range list {
-			rlist = append(rlist, f)
-		}
-		result = rlist
+		result, ea = root.resolveTypedList(len(list), func(i int) interface{} { return list[i] }, vars, field, lt, depth)
 	default:
 		if root.AnyResolver != nil {
 			var rlist []interface{}
@@ -386,6 +361,28 @@ func (root *Root) resolveList(
 		}
 	}
 	return
+}
+
+// resolveTypedList resolves the members of a typed slice. Each member goes
+// through the list's member type just like the members of a []interface{} so
+// that the values are coerced to the declared type and a value that can not
+// be represented is reported instead of being copied to the output as is.
+func (root *Root) resolveTypedList(
+	cnt int,
+	nth func(i int) interface{},
+	vars map[string]interface{},
+	field *Field,
+	lt Type,
+	depth int) (result interface{}, ea []error) {
+
+	rlist := make([]interface{}, 0, cnt)
+	for i := 0; i < cnt; i++ {
+		v, ea2 := root.resolve(nth(i), vars, field, lt, depth)
+		Errors(ea2).in(i)
+		ea = append(ea, ea2...)
+		rlist = append(rlist, v)
+	}
+	return rlist, ea
 }
 
 func (root *Root) formArgs(
